@@ -66,7 +66,7 @@ def _plan_timer(ch):
     ops = []
     for _ in range(3 + ch.choice("nops", 14)):
         k = ch.weighted("top", [("start", 5), ("stop", 2), ("pause", 3), ("pause0", 2), ("add", 2), ("subtract", 2), ("jump", 2),
-                                ("reset", 1), ("restart", 2), ("set_interval", 1)])
+                                ("reset", 1), ("restart", 2), ("set_interval", 1.5), ("mode_restart", 1.5)])
         op = {"op": k, "timer": ch.pick("timer", ["t_down", "t_up"]),
               "when": ch.weighted("twhen", [("rel", 3), ("tick", 3)]),
               "dt": ch.pick("tdt", [0.0, 0.1, 0.25, 0.3, 0.5, 0.99, 1.0, 1.01, 2.0, 3.3]),
@@ -398,6 +398,7 @@ def _execute_timer(ctx, plan):
     M = {n: {"value": c["start"], "running": False, "t0": None, "k": 0, "interval": c["interval"], "auto_start": None,
              "cfg": c} for n, c in TIMERS.items()}
     in_op = [None]          # name of the timer an op is being applied to right now
+    restarting = [False]
     expect = []             # events the model expects within the current op (unordered multiset of (name, ticks))
 
     def done(m):
@@ -423,6 +424,10 @@ def _execute_timer(ctx, plan):
         ctx.log("tev", n, what, kwargs.get("ticks"), t=now)
         if in_op[0] is not None:
             # consequences of an op the model applied: checked by value after the op
+            return
+        if restarting[0]:
+            # the owning mode is being stopped and started again (60 ms): a tick that is due in the instant of the stop
+            # request still happens, the timers are only stopped when the mode has removed its devices
             return
         if what == "tick" and m.get("initial_tick"):
             # start() posts one tick for the starting value right away (documented in timer.py)
@@ -593,6 +598,29 @@ def _execute_timer(ctx, plan):
     def run_op():
         op = ops[idx[0]]
         idx[0] += 1
+        if op["op"] == "mode_restart":
+            # the mode that owns the timers stops and starts again: the timers are stopped with the mode and come back
+            # as configured (start value, configured interval, not running)
+            ctx.probe("mode_restart")
+            ctx.log("mode_restart", t=loop.time())
+            restarting[0] = True
+            mode.stop()
+
+            def start_again():
+                mode.start()
+                sim.after(0.01, started)
+
+            def started():
+                restarting[0] = False
+                for n, m in M.items():
+                    m.update(value=m["cfg"]["start"], running=False, t0=None, k=0, interval=m["cfg"]["interval"],
+                             auto_start=None, initial_tick=False)
+                    if timers[n].ticks != m["value"] or timers[n].running:
+                        ctx.violation("value_after_op", "timer", "%s after the restart of its mode: ticks=%r running=%r, "
+                                      "configured start value %r" % (n, timers[n].ticks, timers[n].running, m["value"]))
+                schedule_next()
+            sim.after(0.05, start_again)
+            return
         apply(op)
         schedule_next()
 
